@@ -11,12 +11,14 @@ PID = 'C02'
 MODULES = ['NoteSeqVerif.Props.C02']
 EXE = 'drv_c02'
 THEOREMS = [
-    # the single-pass loop = closed form (one generic theorem, used by everything below)
-    'NSV.C02.run_eq_spec',
+    # the single-pass loop = closed form (one generic theorem, used by every container)
+    'NSV.C02.run_eq_spec', 'NSV.C02.extract_eq_spec', 'NSV.C02.extract_pieces', 'NSV.C02.extract_piece',
+    'NSV.C02.extract_length',
+    # errors
+    'NSV.C02.extract_errors', 'NSV.C02.extract_trichotomy', 'NSV.C02.extract_subsequence_spec',
     # notes
-    'NSV.C02.extract_notes_spec', 'NSV.C02.extract_partition', 'NSV.C02.extract_notes_nothing_invented',
-    # errors / shape
-    'NSV.C02.extract_errors', 'NSV.C02.extract_length', 'NSV.C02.extract_subsequence_spec',
+    'NSV.C02.extract_notes_spec', 'NSV.C02.clipR_fields', 'NSV.C02.extract_partition',
+    'NSV.C02.extract_notes_nothing_invented',
     # state in effect
     'NSV.C02.state_pieces_spec', 'NSV.C02.extract_state_in_effect',
     'NSV.C02.extract_timeSigs_in_effect', 'NSV.C02.extract_keySigs_in_effect',
@@ -28,10 +30,10 @@ THEOREMS = [
     'NSV.C02.extract_beats', 'NSV.C02.extract_texts', 'NSV.C02.extract_total_time',
     'NSV.C02.extract_subsequence_info', 'NSV.C02.extract_frame',
     # split vectors
-    'NSV.C02.split_hop_list_times', 'NSV.C02.split_hop_times', 'NSV.C02.hop_times_exact',
-    'NSV.C02.split_silence_times', 'NSV.C02.split_time_change_times',
-    'NSV.C02.split_with_spec',
-    'NSV.C02.trim_spec',
+    'NSV.C02.split_with_spec', 'NSV.C02.split_hop_list_times', 'NSV.C02.split_hop_times',
+    'NSV.C02.hop_times_exact', 'NSV.C02.split_silence_times', 'NSV.C02.split_time_change_times',
+    # trim
+    'NSV.C02.trim_spec', 'NSV.C02.trim_errors',
 ]
 
 CH, BEAT = 1, 2
@@ -79,9 +81,25 @@ def gen_seq(rng, hist):
             else:
                 ta = ns.text_annotations.add()
                 ta.time, ta.annotation_type, ta.text = t, rng.choice([CH, BEAT]), rng.choice(['C', 'G7', 'Dm'])
-    if rng.random() < 0.04:
+    if ns.total_time == 0.0 and rng.random() < 0.85:
+        ns.total_time = max(interesting_times(ns, g)) + rng.choice([0.0, 0.5, 1.0])
+    if rng.random() < 0.03:
         ns.total_time = 0.0
+    if ns.total_time == 0.0:
         hist.add('seq:total_time=0')
+    if rng.random() < 0.06:
+        # large common offset: every `time - a` and `total - a - piece_total` now rounds
+        off = rng.choice([1000.3, 12345.678, 1e6 + 0.1])
+        for n in ns.notes:
+            n.start_time += off
+            n.end_time += off
+        for f in (ns.tempos, ns.time_signatures, ns.key_signatures, ns.text_annotations, ns.control_changes,
+                  ns.pitch_bends, ns.section_annotations):
+            for e in f:
+                e.time += off
+        ns.total_time += off
+        g.pool = [t + off for t in g.pool]
+        hist.add('seq:large-offset')
     q = rng.random()
     if q < 0.03:
         ns.quantization_info.steps_per_quarter = 4
@@ -104,19 +122,32 @@ def interesting_times(ns, g):
 
 def gen_splits(rng, ns, g, hist):
     ts = interesting_times(ns, g)
+    inside = [t for t in ts if t < ns.total_time] or [0.0]
     k = rng.choice([0, 1, 2, 2, 3, 3, 4, 5, 7])
-    st = [rng.choice(ts) if rng.random() < 0.85 else rng.uniform(0, ns.total_time + 1) for _ in range(k)]
     m = rng.random()
-    if m < 0.82:
-        st.sort()
-    elif m < 0.9:
-        hist.add('splits:unsorted?')
+    if m < 0.78:
+        # a valid vector: sorted, all but the last before total_time
+        k = max(k, 2)
+        st = sorted(rng.choice(inside) if rng.random() < 0.85 else rng.uniform(0, ns.total_time) for _ in range(k - 1))
+        last = rng.choice([t for t in ts if t >= st[-1]] + [ns.total_time, ns.total_time + 1.0, st[-1]])
+        st.append(max(last, st[-1]))
     else:
-        st.sort()
-        st.append(ns.total_time + rng.choice([0.0, 0.5, 3.0]))
+        st = [rng.choice(ts) if rng.random() < 0.85 else rng.uniform(0, ns.total_time + 1) for _ in range(k)]
+        if m < 0.86:
+            st.sort()
+        elif m < 0.93:
+            hist.add('splits:shuffled')
+        else:
+            st.sort()
+            st.append(ns.total_time + rng.choice([0.0, 0.5, 3.0]))
     if st and rng.random() < 0.25:
         st[0] = 0.0
         st.sort()
+    if st and rng.random() < 0.08:
+        i = rng.randrange(len(st))
+        st[i] = nswire.nextafter_n(st[i], rng.choice([-1, 1]))   # one ulp off an event / note time
+        st.sort()
+        hist.add('splits:one-ulp-off')
     if len(st) >= 2 and rng.random() < 0.15:
         i = rng.randrange(len(st) - 1)
         st[i + 1] = st[i]
@@ -171,6 +202,9 @@ def gen_case(rng):
         else:
             h = rng.choice([0.0, -0.5, -1.0])
             hist.add('hop:nonpositive')
+        if h > 0 and T / h > 64:   # keep numpy.arange (and the number of pieces) small
+            h = T / rng.choice([3, 7, 20, 64])
+            hist.add('hop:scaled-to-total')
         c['hop'] = h
     elif op == 'tc':
         c['skip'] = rng.random() < 0.5
@@ -300,8 +334,9 @@ def check_pieces(ns, splits, pieces, preserve):
             for tau in sorted(probes):
                 if not 0 <= tau < L:
                     continue
-                # instants that rounding of `time - a` has moved by less than EPS are not comparable
-                if any(0 < abs(t - (a + tau)) < EPS for t in ot) or any(0 < abs(u - tau) < EPS for u in nt):
+                # instants that rounding of `time - a` may have moved (relative 2^-36) are not comparable
+                tol = EPS * max(1, abs(a) + tau)
+                if any(0 < abs(t - (a + tau)) < tol for t in ot) or any(0 < abs(u - tau) < tol for u in nt):
                     continue
                 x, y = in_effect(new, tau, val), in_effect(orig, a + tau, val)
                 if x != y:
@@ -373,7 +408,7 @@ def expected_split_vector(ns, c):
         exp, last, gap = [F(0)], F(0), F(c['gap'])
         for n in sorted(ns.notes, key=lambda n: n.start_time):
             d = F(n.start_time) - (last + gap)
-            if 0 < abs(d) < EPS:
+            if 0 < abs(d) < EPS * max(1, abs(last + gap)):
                 return None, True   # last_active + gap is a float sum: undecided within rounding
             if d > 0:
                 exp.append(F(n.start_time))
@@ -464,6 +499,10 @@ def coincidences(ns, c, impl_line):
     op = c['op']
     if impl_line.startswith('err'):
         h.add('result:' + impl_line)
+        if op == 'ext' and impl_line == 'err ValueError':
+            st = c['splits']
+            h.add('ValueError:too-few' if len(st) < 2 else 'ValueError:unsorted' if any(x > y for x, y in zip(st, st[1:]))
+                  else 'ValueError:past-the-end')
         return h
     if op == 'ext':
         st = c['splits']
@@ -589,7 +628,7 @@ def run(chk):
     for name, o in corpus_cases(PID):
         ns, c = obj_case(o)
         cases.append((ns, c, {'corpus'}))
-    for _ in range(chk.n(2500, 60000)):
+    for _ in range(chk.n(6000, 120000)):
         cases.append(gen_case(rng))
     reqs = [request_line(ns, c) for ns, c, _ in cases]
     impl = []
@@ -601,7 +640,7 @@ def run(chk):
     # numpy.arange model on its own: hop sizes / totals around exact multiples
     ar = []
     import numpy as np
-    for _ in range(chk.n(2000, 50000)):
+    for _ in range(chk.n(3000, 60000)):
         k = rng.random()
         h = rng.uniform(0.01, 3) if k < 0.3 else round(rng.uniform(0.01, 3), 2) if k < 0.6 else rng.randrange(1, 40) / rng.choice([8, 10, 3, 7, 100])
         m = rng.random()
